@@ -1,6 +1,7 @@
 import JoblibModel.Tracker
+import JoblibModel.TrackerClient
 import JoblibModel.IOUtil
-/-! Driver for C20 (model of `resource_tracker.main`). One request per line:
+/-! Driver for C20 (model of `resource_tracker.main`, and of the client side composed with it). One request per line:
 
 * `RESET`                 → `reset`            fresh registry (`registry = {rtype: {} …}`)
 * `T`                     → `rtypes folder file semlock`   (`_CLEANUP_FUNCS.keys()` as the model has it)
@@ -9,6 +10,18 @@ import JoblibModel.IOUtil
 * `Q <rtype> x<hexname>`  → `count <c> <a>`: `c` = count stored in the registry (0 = absent), `a` = `absCount`
                             of the history since `RESET`
 Actions: `cleanup <rtype> x<hexname>`, `report <ExceptionClass>`, `leak <rtype> <n>`, joined by ` ; `; none: `-`.
+
+Client side (`JoblibModel.TrackerClient`: `stepOp`, `eof` over one `State` = main process + tracker + disk + workers):
+* `C RESET <fix 0|1> <max_nbytes|-> <nPar> <pool k>*` → `ok`   fresh world
+* `C configure k` | `C poolConfigure k` | `C spawn k` | `C terminate k` | `C poolTerminate k`
+  (`pool…` = the same operation on a `Parallel` object of the multiprocessing backend; a name that does not fit → `bad-op`)
+* `C reduce k <array id> <memmap_backed 0|1> <hasobject 0|1> <nbytes>`
+* `C load c i` | `C drop i` | `C childExit c` | `C childKill c`
+* `C abort k <ensure_ready 0|1>` | `C execTerminate <kill 0|1>` | `C exitParent` | `C killParent`
+  → `<status> | <requests written during the operation, in order, joined by ';'> | <folders on disk, ','> | <files on disk, ','>
+     | <files deleted during the operation while in use (the model's monitor `bad`), ','> | <dup 0|1>`
+* `C EOF` → the same shape with status `eof`: the last process is gone, `Tracker.finish` is applied to the disk
+An operation that the probe cannot issue for this configuration (`Op.wellFormed`) → `bad-op`.
 Anything else → `bad-op`. -/
 open JoblibModel JoblibModel.Tracker JoblibModel.IOUtil
 
@@ -60,20 +73,106 @@ def showAction : Action → String
 def showActions (l : List Action) : String :=
   if l.isEmpty then "-" else " ; ".intercalate (l.map showAction)
 
+def bool? (s : String) : Option Bool := if s = "1" then some true else if s = "0" then some false else none
+
+def nats? : List String → Option (List Nat)
+  | [] => some []
+  | a :: r => do
+    let x ← a.toNat?
+    let rest ← nats? r
+    pure (x :: rest)
+
+def optNat? (s : String) : Option (Option Nat) := if s = "-" then some none else (s.toNat?).map some
+
+def nameStr (n : Name) : String := String.ofList (n.map Char.ofNat)
+
+/-- A line of the pipe without its final newline. -/
+def lineStr (l : Line) : String := nameStr (l.dropLast)
+
+/-- `poolConfigure` / `poolTerminate` are the probe's names of `configure` / `terminate` on a `Parallel` object of the
+multiprocessing backend: the name must fit the kind. -/
+def kindOk (cfg : TrackerClient.Cfg) (pool : Bool) (k : Nat) : Option Nat :=
+  if TrackerClient.isPoolK cfg k = pool then some k else none
+
+def parseOp (cfg : TrackerClient.Cfg) : List String → Option TrackerClient.Op
+  | ["configure", k] => (k.toNat?.bind (kindOk cfg false)).map .configure
+  | ["poolConfigure", k] => (k.toNat?.bind (kindOk cfg true)).map .configure
+  | ["spawn", k] => k.toNat?.map .spawn
+  | ["terminate", k] => (k.toNat?.bind (kindOk cfg false)).map .terminate
+  | ["poolTerminate", k] => (k.toNat?.bind (kindOk cfg true)).map .terminate
+  | ["reduce", k, a, b, o, n] => do
+    let k ← k.toNat?
+    let a ← a.toNat?
+    let b ← bool? b
+    let o ← bool? o
+    let n ← n.toNat?
+    pure (.reduce k ⟨a, b, o, n⟩)
+  | ["load", c, i] => do
+    let c ← c.toNat?
+    let i ← i.toNat?
+    pure (.load c i)
+  | ["drop", i] => i.toNat?.map .drop
+  | ["childExit", c] => c.toNat?.map .childExit
+  | ["childKill", c] => c.toNat?.map .childKill
+  | ["abort", k, e] => do
+    let k ← k.toNat?
+    let e ← bool? e
+    pure (.abort k e)
+  | ["execTerminate", b] => (bool? b).map .execTerminate
+  | ["exitParent"] => some .exitParent
+  | ["killParent"] => some .killParent
+  | _ => none
+
+def statusStr : TrackerClient.Status → String
+  | .ok => "ok"
+  | .skip => "skip"
+  | .loadfail => "loadfail"
+
+/-- The reply to a client operation: what changed between `old` and `new`. -/
+def showClient (status : String) (old new : TrackerClient.State) : String :=
+  let lines := (new.sent.take (new.sent.length - old.sent.length)).reverse
+  let bad := new.bad.drop old.bad.length
+  status ++ " | " ++ ";".intercalate (lines.map lineStr)
+    ++ " | " ++ ",".intercalate (new.disk.dirs.map (fun d => nameStr d.name))
+    ++ " | " ++ ",".intercalate (new.disk.files.map (fun f => nameStr f.name))
+    ++ " | " ++ ",".intercalate (bad.map (fun f => nameStr f.name))
+    ++ " | " ++ (if new.dup then "1" else "0")
+
 structure St where
   registry : Registry
   history : List Line   -- most recent first
+  cfg : TrackerClient.Cfg
+  cs : TrackerClient.State
+
+def handleClient (st : St) : List String → St × String
+  | "RESET" :: fix :: mx :: npar :: pools =>
+    match bool? fix, optNat? mx, npar.toNat?, nats? pools with
+    | some fix, some mx, some npar, some pools =>
+      ({ st with cfg := ⟨fix, mx, npar, pools⟩, cs := TrackerClient.State.init }, "ok")
+    | _, _, _, _ => (st, "bad-op")
+  | ["EOF"] =>
+    let new := TrackerClient.eof st.cs
+    ({ st with cs := new }, showClient "eof" st.cs new)
+  | ts =>
+    match parseOp st.cfg ts with
+    | none => (st, "bad-op")
+    | some op =>
+      if op.wellFormed st.cfg then
+        let r := TrackerClient.stepOp st.cfg st.cs op
+        ({ st with cs := r.1 }, showClient (statusStr r.2) st.cs r.1)
+      else (st, "bad-op")
 
 def handle (st : St) (line : String) : St × String :=
   match tokens line with
-  | ["RESET"] => (⟨Registry.empty, []⟩, "reset")
+  | "C" :: ts => handleClient st ts
+  | ["RESET"] => ({ st with registry := Registry.empty, history := [] }, "reset")
   | ["T"] => (st, "rtypes " ++ joinSp (rtypes.map rtypeName))
   | ["EOF"] => (st, showActions (finish st.registry))
   | ["L", h] =>
     match unhex? h with
     | some (b :: bs) =>
       let r := step st.registry (b :: bs)
-      (⟨r.1, (b :: bs) :: st.history⟩, showActions r.2)
+      ({ st with registry := r.1, history := (b :: bs) :: st.history }, showActions r.2)
     | _ => (st, "bad-op")
   | ["Q", t, h] =>
     match rtype? t, unhex? h with
@@ -85,4 +184,5 @@ def handle (st : St) (line : String) : St × String :=
     | _, _ => (st, "bad-op")
   | _ => (st, "bad-op")
 
-def main : IO Unit := stateLoop (⟨Registry.empty, []⟩ : St) handle
+def main : IO Unit :=
+  stateLoop (⟨Registry.empty, [], ⟨false, none, 0, []⟩, TrackerClient.State.init⟩ : St) handle
